@@ -5,6 +5,12 @@ sid, pid, detected, needs, note = sys.argv[1:6]
 d = os.path.join("/verif/seeded", sid)
 log = open(os.path.join(d, "confirm.log")).read() if os.path.exists(os.path.join(d, "confirm.log")) else ""
 m = re.search(r"rc_demo_without=(\S+) rc_demo_with=(\S+) rc_suite_with=(\S+) rc_check_with=(\S+)", log)
+def _count(fn, pat):
+    fp = os.path.join(d, fn)
+    return len(re.findall(pat, open(fp).read())) if os.path.exists(fp) else None
+# the demo command may end with a cleanup step, so the shell's exit code says nothing: judge by libtest's lines
+demo_without_ok = (_count("demo_without.log", r"test result: ok") or 0) >= 1 and (_count("demo_without.log", r"test result: FAILED") or 0) == 0
+demo_with_failed = (_count("demo_with.log", r"test result: FAILED") or 0) >= 1
 patch = open(os.path.join(d, "patch.diff")).read()
 files = re.findall(r"^\+\+\+ b/(\S+)", patch, re.M)
 meta = {
@@ -14,8 +20,8 @@ meta = {
     "files_changed": files,
     "needs_to_manifest": needs,
     "confirmed_by_me": {
-        "demo_passes_without_change": m.group(1) == "0" if m else None,
-        "demo_fails_with_change": m.group(2) != "0" if m else None,
+        "demo_passes_without_change": demo_without_ok,
+        "demo_fails_with_change": demo_with_failed,
         "existing_nomt_and_core_tests_green_with_change": (m.group(3) == "0") if m and m.group(3) != "skipped" else "confirmed in an earlier run of this script" if m else None,
         "commands": "tools/seedcheck.sh (scratch worktree: git apply demo.diff; run demo; git apply patch.diff; run demo; cargo test -p nomt -p nomt-core --offline) then git -C /repo apply patch.diff; ./check %s; git -C /repo checkout -- ." % pid,
     },
